@@ -307,6 +307,7 @@ def run(ctx, obs, prop: str):
     obs.analysed['sweep_loop_state'] = loop_state(ctx, obs, pre)
     obs.analysed['sweep_loop_carry'] = loop_carry(ctx, obs, pre)
     obs.analysed['sweep_loop_shadow'] = loop_shadow(ctx, obs, pre)
+    obs.analysed['sweep_or_defaults'] = or_default_on_table(ctx, obs, pre)
     obs.analysed['sweep_late_binding'] = late_binding(ctx, obs, pre)
     obs.analysed['sweep_name_keyed_memos'] = name_keyed_memo(ctx, obs, pre)
     obs.analysed['sweep_stale_defaults'] = stale_default(ctx, obs, pre)
@@ -451,6 +452,15 @@ def dtype_inherit(ctx, obs, prefixes: Sequence[str], rule='DTYPE') -> int:
                 if lf in _FLOAT_FUNCS or lf in _INHERIT_FUNCS or lf in ('len', 'count_nonzero', 'arange', 'float', 'int', 'round', 'nanmean',
                                                                        'nansum', 'argmax', 'argmin', 'argsort'):
                     return False      # a computing function
+                # a function of the package whose result is a NEW object (never its argument or a view of it): a computed value
+                cr = next((c_ for c_ in (rdep.calls if rdep is not None else []) if c_.node is rr), None)
+                if cr is not None and len(cr.callees) == 1 and cr.callees[0] in prog.functions:
+                    try:
+                        rs = ctx.heap.summary(cr.callees[0]).ret
+                    except Exception:
+                        rs = None
+                    if rs and all(str(l).startswith('FRESH') for l in rs):
+                        return False
                 return None           # a call the sweep knows nothing about (a helper, an itertools adaptor): origin not visible
             return None
         rdep = ctx.dep.result(q)
@@ -1604,4 +1614,41 @@ def late_binding(ctx, obs, prefixes: Sequence[str], rule='LATE-BIND') -> int:
                             f'`{free[0]}`', where(prog, f, fn))
                 else:
                     obs.ok(rule, q, con, 'used inside the iteration only', where(prog, f, fn))
+    return n
+
+
+# -------------------------------------------------------------------------------------------------------- OR-FALSY
+def or_default_on_table(ctx, obs, prefixes: Sequence[str], rule='OR-FALSY') -> int:
+    """`TABLE.get(key) or default` with a literal table that maps some key to a FALSY value (0, 0.0, '', False): for that key the
+    looked-up value is legitimate and falsy, `or` throws it away and the default is used instead (`{'equal': 0, 'number': 1}
+    .get(w) or 1` is 1 for 'equal')."""
+    prog = ctx.prog
+    n = 0
+    for q, f in sorted(prog.functions.items()):
+        if not _in_scope(q, prefixes) or f.parent is not None:
+            continue
+        local = {}
+        for s in ast.walk(f.node):
+            if isinstance(s, ast.Assign) and len(s.targets) == 1 and isinstance(s.targets[0], ast.Name) and isinstance(s.value, ast.Dict):
+                local.setdefault(s.targets[0].id, []).append(s.value)
+        for e in ast.walk(f.node):
+            if not (isinstance(e, ast.BoolOp) and isinstance(e.op, ast.Or) and len(e.values) >= 2):
+                continue
+            first = e.values[0]
+            if not (isinstance(first, ast.Call) and isinstance(first.func, ast.Attribute) and first.func.attr == 'get'):
+                continue
+            tbl = first.func.value
+            if isinstance(tbl, ast.Name) and len(local.get(tbl.id, [])) == 1:
+                tbl = local[tbl.id][0]
+            if not isinstance(tbl, ast.Dict):
+                continue
+            falsy = [(k, v) for k, v in zip(tbl.keys, tbl.values) if isinstance(v, ast.Constant) and v.value is not None and not v.value]
+            n += 1
+            con = f'`{norm(e)[:60]}`: every entry of the table can be returned'
+            if falsy:
+                k, v = falsy[0]
+                obs.bad(rule, q, con, f'the table maps `{norm(k)}` to `{norm(v)}`, which is falsy: `or` replaces it by `{norm(e.values[-1])}` - the '
+                        f'entry for `{norm(k)}` can never be the result', where(prog, f, e))
+            else:
+                obs.ok(rule, q, con, '', where(prog, f, e))
     return n
